@@ -159,7 +159,10 @@ def m_checks(out, prop, tier, seed, only=None):
 def m_table():
     import m_stats
     import m_dist
+    import m_nuts
     return {
+        "C04": [("c04_adaptation", m_nuts.c04_adaptation)],
+        "C03": [("c03_build_tree", m_nuts.c03_build_tree)],
         "C15": [("c15_isotropic", m_dist.c15_isotropic), ("c15_gaussian2d", m_dist.c15_gaussian2d)],
         "C11": [("c11_split_rhat", m_stats.c11_split_rhat)],
         "C13": [("c13_trackers", m_stats.c13_trackers)],
